@@ -50,7 +50,7 @@ def cases(tier):
         for alt in ALTER:
             out.append(dict(kind=kind, alter=alt))
     # one BIB over two targets (payload and an extension block): altering either target must fail
-    for alt in ('none', 'payload-octet', 'unrelated-block'):
+    for alt in (('none', 'payload-octet', 'unrelated-block') if tier == 'quick' else ALTER + ['attached-payload']):
         out.append(dict(kind='mac0', alter=alt, targets=2))
     # the original target content moved into the COSE message's payload slot, target block rewritten
     out.append(dict(kind='mac0', alter='attached-payload'))
